@@ -53,6 +53,46 @@ def trusted_base_scan():
     return out
 
 
+def do_replay(pid, path):
+    """re-run a recorded violation against the current tree: concrete inputs through the replay
+    driver (real crate), obligations without an input by re-running the check"""
+    rec = json.load(open(path))
+    import shutil
+    still = 0
+    with_input = [v for v in rec["failed_obligations"] if v.get("input")]
+    if with_input:
+        s = engine.scratch_root()
+        try:
+            engine.copy_repo(s)
+            b = engine.build_replay(s)
+            for v in with_input:
+                i = v["input"]
+                if i.get("op") == "new":
+                    rc, so, se = engine.replay(b, "new", i["family"], i["type"], i["text_hex"])
+                    bad = (so == "accept") != bool(i["rfc_language"])
+                    print("REPLAY %s: %s::%s::new(%r) -> %s ; RFC language says %s => %s" % (v["obligation"], i["family"], i["type"], i["text"], so or se, "accept" if i["rfc_language"] else "reject", "STILL FAILS" if bad else "now agrees"))
+                    still += bad
+                elif i.get("op") == "cmd":
+                    rc, so, se = engine.replay(b, *i["args"])
+                    bad = (so != i.get("expected"))
+                    print("REPLAY %s: %s -> %s ; expected %s => %s" % (v["obligation"], " ".join(i["args"]), so or se, i.get("expected"), "STILL FAILS" if bad else "now agrees"))
+                    still += bad
+        finally:
+            shutil.rmtree(s, ignore_errors=True)
+    if len(with_input) < len(rec["failed_obligations"]):
+        want = set(v["obligation"] for v in rec["failed_obligations"] if not v.get("input"))
+        r = subprocess.run([sys.executable, os.path.abspath(__file__), pid, "--tier", rec.get("tier", "quick")], stdout=subprocess.PIPE, text=True)
+        for line in r.stdout.split("\n"):
+            if line.startswith("FAILED-OBLIGATION:") and any(w in line for w in want):
+                print("REPLAY (obligation re-checked): " + line)
+                still += 1
+    if still:
+        print("VIOLATION property=%s replay=%s" % (pid, path))
+        return 1
+    print("replay: no recorded failure reproduces on the current tree")
+    return 0
+
+
 def main():
     ap = argparse.ArgumentParser()
     ap.add_argument("prop")
@@ -65,6 +105,8 @@ def main():
         print("property %s has no check (see MANIFEST not_applicable)" % pid)
         return 2
     cfg = PROPS[pid]
+    if a.replay:
+        return do_replay(pid, a.replay)
     seed = int(os.environ.get("VERIF_SEED", "0") or 0)
     t0 = time.time()
     os.makedirs(EVID, exist_ok=True)
